@@ -38,6 +38,20 @@ def scan_unit(repo, rel):
     return compile_ir(os.path.join(repo, rel), repo, NOCTYPE, lang='c')
 
 
+LLP64_INC = os.path.join(WIT, 'w_c11_llp64')
+
+
+def llp64_unit(repo, rel):
+    """the same source lowered for a data model in which long (32 bit) is narrower than intmax_t /
+    long long (64 bit) - as on the 32-bit MCUs the shim is written for - while pointers stay 64 bit
+    (the interpreter's assumption).  Freestanding: declarations come from witness/w_c11_llp64."""
+    if not os.path.isdir(LLP64_INC):
+        raise AnalysisBroken('witness/w_c11_llp64 missing')
+    flags = ['--target=x86_64-w64-windows-gnu', '-ffreestanding', '-nostdlibinc', '-isystem', LLP64_INC,
+             '-fno-builtin', '-D__weak_alias(a,b)=']
+    return compile_ir(os.path.join(repo, rel), repo, flags, lang='c', out_name='llp64_' + rel.replace('/', '_'))
+
+
 def ret_type(f):
     """(width, signed) of the function result, from IR + debug info"""
     w = f.ret.get('bits')
@@ -81,7 +95,7 @@ def job_scan(a):
         run.run(fname, FnSpec(pre=pre, setup=S.text_setup(endptr='null')))
     else:
         run.run(fname, FnSpec(pre=pre, setup=S.text_setup(), post=END_POST))
-    obs = summarize(it, run)
+    obs = S.summarize_sites(it, run)
     return [('absint', 'R-SCAN', obs, dict(loops=it.loops_seen, checked=it.checked, unchecked=it.unchecked,
                                            unknown=sorted(it.unknown_calls)))]
 
@@ -115,11 +129,13 @@ def scenarios(signed, w):
     character at offset k.  ISO C 7.22.1.4: optional white space, optional sign, optional 0x/0X
     (base 16 or 0), digits below the base; the end pointer addresses the first character that is
     not part of that subject sequence, or the start of the text when the subject is empty."""
-    M = 1 << w
-    neg1 = ('48 - c1') if signed else ('%d - c1 + 48' % M)
+    # negative texts: for the unsigned siblings ISO C negates in the result type; the contract layer
+    # binds 'ret' to the two's complement (signed) reading of such a value, so the same closed form
+    # -(value) states "ret == 2^w - value" for them
+    neg1 = '48 - c1'
 
     def negv(expr):
-        return ('-(%s)' % expr) if signed else ('%d - (%s)' % (M, expr))
+        return '-(%s)' % expr
     sc = [
         (10, [DIG], False, 'c0 - 48', 1),
         (10, [DIG, DIG], False, '10 * (c0 - 48) + c1 - 48', 2),
@@ -129,7 +145,7 @@ def scenarios(signed, w):
         (10, [ord('+'), DIG], False, 'c1 - 48', 2),
         (10, [SP, DIG], False, 'c1 - 48', 2),
         (10, [32, DIG], False, 'c1 - 48', 2),
-        (10, [32, SP, ord('-'), NZD], False, ('48 - c3') if signed else ('%d - c3 + 48' % M), 4),
+        (10, [32, SP, ord('-'), NZD], False, '48 - c3', 4),
         (10, [DIG, PUNCT], True, 'c0 - 48', 1),
         (10, [DIG, (58, 64)], True, 'c0 - 48', 1),
         (10, [DIG, (65, 90)], True, 'c0 - 48', 1),
@@ -235,7 +251,7 @@ def job_parse(a):
             name = 'base %d text %s' % (base, show(chars, op))
             run.run(fname, FnSpec(setup=S.text_setup(chars, op, base=base),
                                   post=[dict(name=name, then=['ret == ' + val, 'ghost_end == %d' % end])]))
-    obs = [o for o in summarize(it, run) if o['kind'] in ('post', 'returns')]
+    obs = [o for o in S.summarize_sites(it, run) if o['kind'] in ('post', 'returns')]
     return [('absint', 'R-PARSE', obs, dict(loops=it.loops_seen, checked=it.checked, unchecked=it.unchecked,
                                             unknown=sorted(it.unknown_calls)))]
 
@@ -244,12 +260,12 @@ def job_parse(a):
 # R-CUTOFF: overflow detection arithmetic, per base
 # ----------------------------------------------------------------------
 def job_cutoff(a):
-    repo, fname, rel, bases = a
-    mod = scan_unit(repo, rel)
+    repo, fname, rel, bases, model = a
+    mod = scan_unit(repo, rel) if model == 'LP64' else llp64_unit(repo, rel)
     out = []
     for b in bases:
         for neg in (0, 1):
-            out.extend(S.cutoff_run(mod, fname, b, neg, SCAN_EXT))
+            out.extend(S.cutoff_run(mod, fname, b, neg, SCAN_EXT, model))
     return [('inst', 'R-CUTOFF', out, {})]
 
 
@@ -315,8 +331,9 @@ def run(rep, repo, tier):
         jobs.append(('scan', (repo, fname, rel, 'null endptr', ['arg2 >= 2', 'arg2 <= 15'], True)))
         jobs.append(('parse', (repo, fname, rel)))
         step = 6
-        for k in range(0, len(bases), step):
-            jobs.append(('cutoff', (repo, fname, rel, bases[k:k + step])))
+        for model in ('LP64', 'LLP64'):
+            for k in range(0, len(bases), step):
+                jobs.append(('cutoff', (repo, fname, rel, bases[k:k + step], model)))
     for fname in ('atol', 'atoi'):
         jobs.append(('scan', (repo, fname, ATOL_UNIT, 'any', [], False)))
         jobs.append(('parse', (repo, fname, ATOL_UNIT)))
@@ -355,7 +372,7 @@ def run(rep, repo, tier):
     rep.floor('R-SCAN:bounds', 30)
     rep.floor('R-SCAN:post', 24)
     rep.floor('R-PARSE:post', 6 * 120 + 25)
-    rep.floor('R-CUTOFF', 6 * len(bases) * 6)
+    rep.floor('R-CUTOFF', 2 * 6 * len(bases) * 2 * 6)
     rep.floor('R-SIBLING', 30)
     rep.floor('R-CTYPE:post', 16)
     rep.floor('R-FORWARD', 2)
